@@ -94,6 +94,7 @@ def run(P, R, tier):
     from rules import C19 as _C19
     _C19.gate_sides(P, R, 'C10.b')
     _common.evaluated_once(P, R, 'C10.c', 'the temp directories of different calls coincide, so one call removes or overwrites the sub-parts of another')
+    _common.array_token(P, R, 'C10.e')      # the frame that is packed and written is the frame that was given (dask identifies it by token)
     from rules import C06 as _C06
     _C06.dask_total_bounds(P, R, 'C10.e')      # the extent of the packing grid (C09 and C06 would be a forward cycle through C19: the rule is called directly)
     _common.forward(P, R, 'C12', ['C12.d'], 'C10.e', 'the frame that is returned (and any re-read without bounds=) holds every part that was written', floor=1)
